@@ -254,6 +254,7 @@ func (g *gen) set(gg glyf.Glyphs, nf bool, mutants int, tag string) {
 		return
 	}
 	g.add(decodeLine(int(enc.LocaFormat), enc.LocaData, enc.GlyfData), "decode:of-encoded")
+	g.simplesOf(enc, 12)
 	if len(enc.GlyfData) > 4096 {
 		mutants = min(mutants, 2)
 	}
@@ -301,6 +302,30 @@ func (g *gen) mutant(enc *glyf.Encoded) {
 		tag = "loca-format"
 	}
 	g.add(decodeLine(f, lo, gl), "mutant:"+tag)
+	g.simplesOf(&glyf.Encoded{GlyfData: gl, LocaData: lo, LocaFormat: int16(f)}, 6)
+}
+
+// SimpleGlyph.Decode on the simple glyphs glyf.Decode returns for enc
+func (g *gen) simplesOf(enc *glyf.Encoded, limit int) {
+	gg, err, p := callDecode(enc)
+	if err != nil || p {
+		return
+	}
+	n := 0
+	for _, gl := range gg {
+		if gl == nil {
+			continue
+		}
+		if s, ok := gl.Data.(glyf.SimpleGlyph); ok {
+			if len(s.Encoded) > 4096 {
+				continue
+			}
+			g.add(simpleLine(int(s.NumContours), s.Encoded), "simple:decoded-by-Decode")
+			if n++; n >= limit {
+				return
+			}
+		}
+	}
 }
 
 func simpleLine(nc int, e []byte) string {
